@@ -31,6 +31,9 @@ const FILE_MODE_WRITE = 1
 var ErrNotFound = errors.New("file not found")
 
 func NewFileSystemFromLocation(location string) (FileSystem, error) {
+	if fs, ok := verifFileSystem(location); ok {
+		return fs, nil
+	}
 	if strings.HasPrefix(location, s3Protocol) {
 		return NewS3FileSystemFromURI(location)
 	}
